@@ -17,5 +17,5 @@ CONSTANTS
   History = TRUE
 CONSTRAINT SentQ
 INVARIANTS TypeOK Bound WasSent LruOK
-PROPERTIES ImplConforms ImplExtraOK
+PROPERTIES ImplConforms ImplExtraOK CacheIsLru
 CHECK_DEADLOCK FALSE
